@@ -13,6 +13,7 @@ import (
 
 	"hop.computer/hop/certs"
 	"hop.computer/hop/keys"
+	"hop.computer/hop/pkg/verifhook"
 )
 
 // Hop Noise XX pattern
@@ -754,7 +755,7 @@ func (hs *HandshakeState) writePQClientRequestHidden(b []byte, serverKEMPublicKe
 	pos += MacLen
 
 	// Timestamp
-	now := time.Now().Unix()
+	now := verifhook.Int64("transport.hidden-request.timestamp", time.Now().Unix())
 	timeBytes := make([]byte, 8)
 	binary.BigEndian.PutUint64(timeBytes, uint64(now))
 	hs.duplex.Encrypt(b, timeBytes[:])
